@@ -24,9 +24,29 @@ def baseline(make):
     return run
 
 
-def fault_variants(make, kinds=FAULTS_BY_KIND):
+def fault_variants(make, kinds=FAULTS_BY_KIND, decide0=None, tag="fault"):
     """One execution per (network operation index k, fault kind): the k-th operation that the
-    default schedule resolves gets the fault; everything else follows the default schedule."""
+    default schedule resolves gets the fault; everything else follows the default schedule
+    (decide0: another base schedule, e.g. sequential_decide - the failed call is over and done with
+    before the next caller arrives)."""
+    if decide0 is not None:
+        base = make()
+        base.run(decide0)
+        ops = [(op.seq, op.kind) for op in base.net.ops if op.kind in kinds and op.state == "done"]
+        base.finish()
+        for seq, kind in ops:
+            for f in kinds[kind]:
+                run = make()
+
+                def decide(r, en, seq=seq, f=f):
+                    st = decide0(r, en)
+                    if st is not None and st[0] == "op" and st[1] == seq:
+                        return ("op", seq, f)
+                    return st
+
+                run.run(decide)
+                yield (tag, seq, kind, f), run
+        return
     base = baseline(make)
     ops = [(op.seq, op.kind) for op in base.net.ops if op.kind in kinds and op.state == "done"]
     base.finish()
